@@ -24,9 +24,12 @@ package netann
 
 import (
 	"bytes"
+	"image/color"
+	"net"
 
 	"github.com/btcsuite/btcd/btcec/v2"
 	"github.com/btcsuite/btcd/btcec/v2/ecdsa"
+	"github.com/btcsuite/btcd/btcutil/v2"
 	"github.com/btcsuite/btcd/chainhash/v2"
 	"github.com/lightningnetwork/lnd/input"
 	"github.com/lightningnetwork/lnd/lnwire"
@@ -46,14 +49,17 @@ var c20Pubs = [4][33]byte{
 }
 
 // c20Pub selects c20Pubs[i] (i < 4) without branching, so that a symbolic
-// index gives one term per byte instead of four paths.
+// index gives one term per byte instead of four paths:
+// x0 ^ (x0^x1)&b0 ^ (x0^x2)&b1 ^ (x0^x1^x2^x3)&b0&b1 with b0, b1 the bits of i
+// spread over a byte.
 func c20Pub(i uint8) [33]byte {
 	b0 := -(i & 1)
 	b1 := -((i >> 1) & 1)
+	b01 := b0 & b1
 	var out [33]byte
 	for j := 0; j < 33; j++ {
-		out[j] = c20Pubs[0][j]&^b1&^b0 | c20Pubs[1][j]&^b1&b0 |
-			c20Pubs[2][j]&b1&^b0 | c20Pubs[3][j]&b1&b0
+		x0, x1, x2, x3 := c20Pubs[0][j], c20Pubs[1][j], c20Pubs[2][j], c20Pubs[3][j]
+		out[j] = x0 ^ (x0^x1)&b0 ^ (x0^x2)&b1 ^ (x0^x1^x2^x3)&b01
 	}
 	return out
 }
@@ -79,10 +85,33 @@ type c20IdealSig struct{ raw [64]byte }
 
 func (s *c20IdealSig) Serialize() []byte { return s.raw[:] }
 
+// c20SigUF selects how the injective function F(digest, key, corruption) that
+// stands for "ECDSA signature, then xor" is represented in the symbolic run:
+// true: an uninterpreted function (any injective F); false: one concrete
+// injective F, digest || signer index || corruption (3-4x cheaper for the
+// solver; lnd never looks inside signature bytes other than through the two
+// replaced functions, so its behaviour cannot depend on which F it is).
+var c20SigUF bool
+
 // Verify: the value verifies iff it is the unaltered signature F(digest, key, no corruption).
 func (s *c20IdealSig) Verify(digest []byte, key *btcec.PublicKey) bool {
-	want := vHash("sig", 64, digest, c20KeyBytes(key), []byte{0, 0})
-	return bytes.Equal(want, s.raw[:])
+	kb := c20KeyBytes(key)
+	if c20SigUF {
+		want := vHash("sig", 64, digest, kb, []byte{0, 0})
+		return bytes.Equal(want, s.raw[:])
+	}
+	d := s.raw[32] &^ 3
+	for i := 0; i < 32; i++ {
+		d |= s.raw[i] ^ digest[i]
+	}
+	k := c20Pub(s.raw[32] & 3)
+	for i := 0; i < 33; i++ {
+		d |= k[i] ^ kb[i]
+	}
+	for i := 33; i < 64; i++ {
+		d |= s.raw[i]
+	}
+	return d == 0
 }
 
 // vC20ToSignature replaces (*lnwire.Sig).ToSignature: the 64 wire bytes are
@@ -145,6 +174,8 @@ func c20Ideal() {
 	vAssumption("ideal hash: chainhash.DoubleHashB is one collision-free function of the byte string")
 	vAssumption("ParsePubKey/Sig.ToSignature succeed on every input in the symbolic run; natively a malformed key/signature is an error, which the oracle classes as 'does not verify' as well")
 	c20KeyTab = nil
+	c20SigUF = vChoice("sigmodel", 2) == 1
+	vUnwind(512)
 }
 
 // c20Sign produces the 64 wire bytes of a signature by test key `signer` over
@@ -169,7 +200,13 @@ func c20Sign(digest []byte, signer uint8, pos, val uint8) lnwire.Sig {
 		if val == 0 {
 			pos = 0 // xor with 0 at any position is "unaltered"
 		}
-		out = vHash("sig", 64, digest, k[:], []byte{pos, val})
+		if c20SigUF {
+			out = vHash("sig", 64, digest, k[:], []byte{pos, val})
+		} else {
+			out = make([]byte, 64)
+			copy(out, digest)
+			out[32], out[33], out[34] = signer, pos, val
+		}
 	}
 	s, err := lnwire.NewSigFromWireECDSA(out)
 	if err != nil {
@@ -194,9 +231,16 @@ func c20Slot(name string) c20SigSlot {
 
 // authentic is the property's notion: made by the owner of `key` over exactly
 // this message and not altered since.
+//
+// The oracle helpers below accumulate differences with | instead of using
+// && / ==, so that the symbolic run does not fork inside the oracle.
 func (s c20SigSlot) authentic(key [33]byte) bool {
 	k := c20Pub(s.signer)
-	return s.other == 0 && s.val == 0 && bytes.Equal(k[:], key[:])
+	d := s.other | s.val
+	for j := range k {
+		d |= k[j] ^ key[j]
+	}
+	return d == 0
 }
 
 func (s c20SigSlot) make(dThis, dOther []byte) lnwire.Sig {
@@ -300,8 +344,25 @@ func c20AnnWire(a *c20Ann) *lnwire.ChannelAnnouncement1 {
 }
 
 func c20AnnSame(a, b *c20Ann) bool {
-	return a.feat == b.feat && a.chain == b.chain && a.scid == b.scid &&
-		a.keys == b.keys && bytes.Equal(a.extra, b.extra)
+	if a.feat != b.feat || len(a.extra) != len(b.extra) { // concrete
+		return false
+	}
+	d := uint32(0)
+	for i := range a.chain {
+		d |= uint32(a.chain[i] ^ b.chain[i])
+	}
+	d |= a.scid.BlockHeight ^ b.scid.BlockHeight
+	d |= a.scid.TxIndex ^ b.scid.TxIndex
+	d |= uint32(a.scid.TxPosition ^ b.scid.TxPosition)
+	for k := 0; k < 4; k++ {
+		for i := 0; i < 33; i++ {
+			d |= uint32(a.keys[k][i] ^ b.keys[k][i])
+		}
+	}
+	for i := range a.extra {
+		d |= uint32(a.extra[i] ^ b.extra[i])
+	}
+	return d == 0
 }
 
 // c20AnnOther builds the "other" announcement a signer may have signed
@@ -360,10 +421,11 @@ func VerifC20ChanAnn() {
 
 	err := ValidateChannelAnn(w, nil)
 
-	want := true
+	auth := [4]bool{}
 	for k := 0; k < 4; k++ {
-		want = want && slot[k].authentic(a.keys[k])
+		auth[k] = slot[k].authentic(a.keys[k])
 	}
+	want := auth[0] && auth[1] && auth[2] && auth[3]
 	vObserve("accepted", err == nil)
 	if err == nil {
 		vReach("accept")
@@ -371,4 +433,357 @@ func VerifC20ChanAnn() {
 		vReach("reject")
 	}
 	vAssert((err == nil) == want, "channel_announcement accepted iff all four signatures are authentic for their paired keys")
+}
+
+// VerifC20ChanAnnDigest: ChannelAnnouncement1.DataToSign is byte for byte the
+// BOLT-7 layout (features, chain hash, scid, node ids, bitcoin keys, extra
+// data) and two announcements with the same DataToSign agree in every one of
+// those fields.
+func VerifC20ChanAnnDigest() {
+	vUnwind(512)
+	mk := func(p string) *c20Ann {
+		a := &c20Ann{feat: vChoice(p+"feat", c20NFeat)}
+		copy(a.chain[:], vBytes(p+"chain", 32))
+		a.scid = c20SymScid(p + "scid")
+		for k := 0; k < 4; k++ {
+			copy(a.keys[k][:], vBytes(p+"key", 33))
+		}
+		a.extra = vBytes(p+"extra", vChoice(p+"extra.len", C20_EXTRA+1))
+		return a
+	}
+	a, b := mk("a."), mk("b.")
+	da, err := c20AnnWire(a).DataToSign()
+	vAssert(err == nil, "DataToSign(a) fails")
+	db, err := c20AnnWire(b).DataToSign()
+	vAssert(err == nil, "DataToSign(b) fails")
+	vAssert(bytes.Equal(da, c20AnnRef(a)), "channel_announcement DataToSign is the BOLT-7 serialisation")
+	if bytes.Equal(da, db) {
+		vReach("same-data")
+		vAssert(c20AnnSame(a, b), "channel_announcement: equal DataToSign implies equal fields")
+	} else {
+		vReach("different-data")
+	}
+}
+
+// ---------------------------------------------------------------------------
+// channel_update
+// ---------------------------------------------------------------------------
+
+type c20Upd struct {
+	chain          [32]byte
+	scid           lnwire.ShortChannelID
+	ts             uint32
+	mflags, cflags uint8
+	tld            uint16
+	min, max       uint64
+	base, rate     uint32
+	extra          []byte
+}
+
+func c20SymUpd(p string, nextra int) *c20Upd {
+	u := &c20Upd{
+		scid: c20SymScid(p + "scid"), ts: vU32(p + "ts"), mflags: vU8(p + "mflags"), cflags: vU8(p + "cflags"),
+		tld: vU16(p + "tld"), min: vU64(p + "min"), max: vU64(p + "max"), base: vU32(p + "base"), rate: vU32(p + "rate"),
+		extra: vBytes(p+"extra", nextra),
+	}
+	copy(u.chain[:], vBytes(p+"chain", 32))
+	return u
+}
+
+func c20UpdRef(u *c20Upd) []byte {
+	b := append([]byte{}, u.chain[:]...)
+	b = c20Scid(b, u.scid)
+	b = c20U32(b, u.ts)
+	b = append(b, u.mflags, u.cflags)
+	b = c20U16(b, u.tld)
+	b = c20U64(b, u.min)
+	b = c20U32(b, u.base)
+	b = c20U32(b, u.rate)
+	if u.mflags&1 != 0 { // option_channel_htlc_max
+		b = c20U64(b, u.max)
+	}
+	return append(b, u.extra...)
+}
+
+func c20UpdWire(u *c20Upd) *lnwire.ChannelUpdate1 {
+	return &lnwire.ChannelUpdate1{
+		ChainHash:       u.chain,
+		ShortChannelID:  u.scid,
+		Timestamp:       u.ts,
+		MessageFlags:    lnwire.ChanUpdateMsgFlags(u.mflags),
+		ChannelFlags:    lnwire.ChanUpdateChanFlags(u.cflags),
+		TimeLockDelta:   u.tld,
+		HtlcMinimumMsat: lnwire.MilliSatoshi(u.min),
+		BaseFee:         u.base,
+		FeeRate:         u.rate,
+		HtlcMaximumMsat: lnwire.MilliSatoshi(u.max),
+		ExtraOpaqueData: u.extra,
+	}
+}
+
+// c20UpdSame: equal in every field that is on the wire (htlc_maximum_msat is
+// on the wire only with message flag bit 0).
+func c20UpdSame(a, b *c20Upd) bool {
+	if len(a.extra) != len(b.extra) { // concrete
+		return false
+	}
+	d := uint64(0)
+	for i := range a.chain {
+		d |= uint64(a.chain[i] ^ b.chain[i])
+	}
+	d |= uint64(a.scid.BlockHeight ^ b.scid.BlockHeight)
+	d |= uint64(a.scid.TxIndex ^ b.scid.TxIndex)
+	d |= uint64(a.scid.TxPosition ^ b.scid.TxPosition)
+	d |= uint64(a.ts ^ b.ts)
+	d |= uint64(a.mflags ^ b.mflags)
+	d |= uint64(a.cflags ^ b.cflags)
+	d |= uint64(a.tld ^ b.tld)
+	d |= a.min ^ b.min
+	d |= uint64(a.base ^ b.base)
+	d |= uint64(a.rate ^ b.rate)
+	hasMax := -uint64(a.mflags & 1) // all ones iff the field is present
+	d |= (a.max ^ b.max) & hasMax
+	for i := range a.extra {
+		d |= uint64(a.extra[i] ^ b.extra[i])
+	}
+	return d == 0
+}
+
+// c20MaxSat: no funding output can hold more than the 21e6 BTC that will ever
+// exist (consensus); capacity*1000 then fits 64 bits, as lnd assumes.
+const c20MaxSat = 21_000_000 * 100_000_000
+
+// VerifC20ChanUpdate: ValidateChannelUpdateAnn(key, capacity, u) == nil  <=>
+// the signature is authentic for the supplied key AND message flag bit 0
+// (htlc_maximum_msat present) is set, 0 < max, min <= max, and max <= capacity
+// when the capacity is known (!= 0).
+func VerifC20ChanUpdate() {
+	c20Ideal()
+	u := c20SymUpd("", C20_EXTRA*vChoice("extra.len", 2))
+	no := len(u.extra)
+	if vChoice("other", 2) == 1 {
+		no++
+	}
+	o := c20SymUpd("o.", no)
+	vAssume(!c20UpdSame(u, o))
+
+	kidx := vU8("key.idx")
+	vAssume(kidx < 4)
+	key := c20Pub(kidx)
+	slot := c20Slot("sig")
+	capSat := vI64("capacity")
+	vAssume(capSat >= 0 && capSat <= c20MaxSat)
+
+	w := c20UpdWire(u)
+	w.Signature = slot.make(chainhash.DoubleHashB(c20UpdRef(u)), chainhash.DoubleHashB(c20UpdRef(o)))
+	pk, perr := btcec.ParsePubKey(key[:])
+	if perr != nil {
+		panic(perr)
+	}
+
+	err := ValidateChannelUpdateAnn(pk, btcutil.Amount(capSat), w)
+
+	fieldsOK := u.mflags&1 != 0 && u.max != 0 && u.min <= u.max &&
+		(capSat == 0 || u.max <= uint64(capSat)*1000)
+	auth := slot.authentic(key)
+	vObserve("accepted", err == nil)
+	if err == nil {
+		vReach("accept")
+	} else if !fieldsOK {
+		vReach("reject-fields")
+	} else {
+		vReach("reject-signature")
+	}
+	vAssert((err == nil) == (fieldsOK && auth), "channel_update accepted iff fields are consistent and the signature is authentic for the supplied key")
+
+	// The signature check on its own (used by the gossiper for zombie
+	// resurrection and by the router for updates in failure messages).
+	err2 := VerifyChannelUpdateSignature(w, pk)
+	vAssert((err2 == nil) == auth, "VerifyChannelUpdateSignature accepts iff the signature is authentic for the supplied key")
+}
+
+// VerifC20ChanUpdDigest: ChannelUpdate1.DataToSign is the BOLT-7 layout and is
+// injective in every field that is on the wire.
+func VerifC20ChanUpdDigest() {
+	vUnwind(512)
+	a := c20SymUpd("a.", vChoice("a.extra.len", C20_EXTRA+1))
+	b := c20SymUpd("b.", vChoice("b.extra.len", C20_EXTRA+1))
+	da, err := c20UpdWire(a).DataToSign()
+	vAssert(err == nil, "DataToSign(a) fails")
+	db, err := c20UpdWire(b).DataToSign()
+	vAssert(err == nil, "DataToSign(b) fails")
+	vAssert(bytes.Equal(da, c20UpdRef(a)), "channel_update DataToSign is the BOLT-7 serialisation")
+	if bytes.Equal(da, db) {
+		vReach("same-data")
+		vAssert(c20UpdSame(a, b), "channel_update: equal DataToSign implies equal fields")
+	} else {
+		vReach("different-data")
+	}
+}
+
+// ---------------------------------------------------------------------------
+// node_announcement
+// ---------------------------------------------------------------------------
+
+type c20Node struct {
+	feat  int
+	ts    uint32
+	id    [33]byte
+	rgb   [3]byte
+	alias [32]byte
+	addrs int // shape, see c20Addrs
+	ip    [4]byte
+	port  uint16
+	extra []byte
+}
+
+const c20NAddr = 6
+
+// c20Addrs returns the address list of shape n, its BOLT-7 serialisation
+// (without the length prefix) and whether BOLT-7 / lnd's field rules allow it
+// (at most one DNS hostname, which must be non-empty ASCII letters, digits,
+// '-' and '.', with a non-zero port).
+func c20Addrs(n *c20Node) ([]net.Addr, []byte, bool) {
+	tcp := &net.TCPAddr{IP: net.IP(n.ip[:]), Port: int(n.port)}
+	tcpB := c20U16(append([]byte{1}, n.ip[:]...), n.port)
+	dns := func(h string) (net.Addr, []byte) {
+		b := append([]byte{5, byte(len(h))}, h...)
+		return &lnwire.DNSAddress{Hostname: h, Port: n.port}, c20U16(b, n.port)
+	}
+	switch n.addrs {
+	case 0:
+		return nil, nil, true
+	case 1:
+		return []net.Addr{tcp}, tcpB, true
+	case 2:
+		d, b := dns("ln.example-1.org")
+		return []net.Addr{tcp, d}, append(tcpB, b...), n.port != 0
+	case 3:
+		d1, b1 := dns("a.org")
+		d2, b2 := dns("b.org")
+		return []net.Addr{d1, d2}, append(b1, b2...), false
+	case 4:
+		d, b := dns("bad_host.org")
+		return []net.Addr{d}, b, false
+	}
+	d, b := dns("")
+	return []net.Addr{d}, b, false
+}
+
+func c20SymNode(p string, nextra int) *c20Node {
+	n := &c20Node{feat: vChoice(p+"feat", c20NFeat), ts: vU32(p + "ts"), addrs: vChoice(p+"addrs", c20NAddr), port: vU16(p + "port")}
+	copy(n.rgb[:], vBytes(p+"rgb", 3))
+	copy(n.alias[:], vBytes(p+"alias", 32))
+	copy(n.ip[:], vBytes(p+"ip", 4))
+	n.extra = vBytes(p+"extra", nextra)
+	return n
+}
+
+func c20NodeRef(n *c20Node) []byte {
+	_, f := c20Features(n.feat)
+	b := append([]byte{}, f...)
+	b = c20U32(b, n.ts)
+	b = append(b, n.id[:]...)
+	b = append(b, n.rgb[:]...)
+	b = append(b, n.alias[:]...)
+	_, ab, _ := c20Addrs(n)
+	b = c20U16(b, uint16(len(ab)))
+	b = append(b, ab...)
+	return append(b, n.extra...)
+}
+
+func c20NodeWire(n *c20Node) *lnwire.NodeAnnouncement1 {
+	fv, _ := c20Features(n.feat)
+	addrs, _, _ := c20Addrs(n)
+	return &lnwire.NodeAnnouncement1{
+		Features:        fv,
+		Timestamp:       n.ts,
+		NodeID:          n.id,
+		RGBColor:        color.RGBA{R: n.rgb[0], G: n.rgb[1], B: n.rgb[2]},
+		Alias:           lnwire.NodeAlias(n.alias),
+		Addresses:       addrs,
+		ExtraOpaqueData: n.extra,
+	}
+}
+
+func c20NodeSame(a, b *c20Node) bool {
+	if a.feat != b.feat || a.addrs != b.addrs || len(a.extra) != len(b.extra) { // concrete
+		return false
+	}
+	d := a.ts ^ b.ts
+	for i := range a.id {
+		d |= uint32(a.id[i] ^ b.id[i])
+	}
+	for i := range a.rgb {
+		d |= uint32(a.rgb[i] ^ b.rgb[i])
+	}
+	for i := range a.alias {
+		d |= uint32(a.alias[i] ^ b.alias[i])
+	}
+	if a.addrs == 1 || a.addrs == 2 {
+		for i := range a.ip {
+			d |= uint32(a.ip[i] ^ b.ip[i])
+		}
+	}
+	if a.addrs != 0 {
+		d |= uint32(a.port ^ b.port)
+	}
+	for i := range a.extra {
+		d |= uint32(a.extra[i] ^ b.extra[i])
+	}
+	return d == 0
+}
+
+// VerifC20NodeAnn: ValidateNodeAnn(n) == nil  <=>  the address list obeys the
+// field rules AND the signature is authentic for the announced node id.
+func VerifC20NodeAnn() {
+	c20Ideal()
+	n := c20SymNode("", C20_EXTRA*vChoice("extra.len", 2))
+	n.id = c20Key("node")
+	no := len(n.extra)
+	if vChoice("other", 2) == 1 {
+		no++
+	}
+	o := c20SymNode("o.", no)
+	copy(o.id[:], vBytes("o.id", 33))
+	vAssume(!c20NodeSame(n, o))
+	slot := c20Slot("sig")
+
+	w := c20NodeWire(n)
+	w.Signature = slot.make(chainhash.DoubleHashB(c20NodeRef(n)), chainhash.DoubleHashB(c20NodeRef(o)))
+
+	err := ValidateNodeAnn(w)
+
+	_, _, addrsOK := c20Addrs(n)
+	auth := slot.authentic(n.id)
+	vObserve("accepted", err == nil)
+	if err == nil {
+		vReach("accept")
+	} else if !addrsOK {
+		vReach("reject-fields")
+	} else {
+		vReach("reject-signature")
+	}
+	vAssert((err == nil) == (addrsOK && auth), "node_announcement accepted iff addresses are well-formed and the signature is authentic for the node id")
+}
+
+// VerifC20NodeAnnDigest: NodeAnnouncement1.DataToSign is the BOLT-7 layout and
+// injective in features, timestamp, node id, colour, alias, addresses, extra.
+func VerifC20NodeAnnDigest() {
+	vUnwind(512)
+	a := c20SymNode("a.", vChoice("a.extra.len", C20_EXTRA+1))
+	b := c20SymNode("b.", vChoice("b.extra.len", C20_EXTRA+1))
+	copy(a.id[:], vBytes("a.id", 33))
+	copy(b.id[:], vBytes("b.id", 33))
+	da, err := c20NodeWire(a).DataToSign()
+	vAssert(err == nil, "DataToSign(a) fails")
+	db, err := c20NodeWire(b).DataToSign()
+	vAssert(err == nil, "DataToSign(b) fails")
+	vAssert(bytes.Equal(da, c20NodeRef(a)), "node_announcement DataToSign is the BOLT-7 serialisation")
+	if bytes.Equal(da, db) {
+		vReach("same-data")
+		vAssert(c20NodeSame(a, b), "node_announcement: equal DataToSign implies equal fields")
+	} else {
+		vReach("different-data")
+	}
 }
